@@ -120,6 +120,8 @@ def default_inputs(con, case, alphabet, maxlen, rng, extra=0):
 
 def native_check_one(con, case, raw):
     """Evaluate the contract on one real input. Returns None (not applicable), True, or a failure dict."""
+    if hasattr(con, 'native_check'):
+        return con.native_check(case, raw)
     built = con.native_build(case, raw)
     if built is None:
         return None
@@ -253,11 +255,13 @@ def native_checks(pid, mine, registry, reports, tier, seed):
         for case in con.active_cases():
             ins = list(con.native_inputs(case, alphabet_q, maxlen, rng, 0 if tier == 'quick' else 300))
             budget = 600 if tier == 'quick' else 20000
+            if not con.deductive:
+                budget = 3000 if tier == 'quick' else 40000
             if len(ins) > budget:
                 ins = rng.sample(ins, budget)
             for k in range(0, len(ins), 50):
                 jobs.append(('rt', ri, case, ins[k:k + 50]))
-            if rp['rep'] is not None and not rp['error']:
+            if rp['rep'] is not None and not rp['error'] and con.deductive:
                 xin = ins[:200 if tier == 'quick' else 3000]
                 for k in range(0, len(xin), 50):
                     jobs.append(('xc', ri, case, xin[k:k + 50]))
@@ -269,6 +273,7 @@ def native_checks(pid, mine, registry, reports, tier, seed):
             results = pool.map(_job, jobs, chunksize=1)
     else:
         results = []
+    per_clause = {}
     for (kind, ri, case, res), job in zip(results, jobs):
         con = reports[ri]['contract']
         m = meta[ri]
@@ -280,7 +285,9 @@ def native_checks(pid, mine, registry, reports, tier, seed):
                 distinct.add((type(con).__name__, case, json.dumps(raw, sort_keys=True, default=str)))
                 if r is not True:
                     m['fail'] += 1
-                    if m['fail'] <= 20:
+                    k2 = (ri, r.get('case'), r.get('clause'))
+                    per_clause[k2] = per_clause.get(k2, 0) + 1
+                    if per_clause[k2] <= 40:
                         out['failures'].append(r)
         else:
             ev, mm = res
@@ -353,6 +360,16 @@ def restriction(k, ob):
     return out or None
 
 
+def _flat_strings(x):
+    if isinstance(x, str):
+        return [x]
+    if isinstance(x, dict):
+        return [s for v in x.values() for s in _flat_strings(v)]
+    if isinstance(x, (list, tuple)):
+        return [s for v in x for s in _flat_strings(v)]
+    return []
+
+
 def match_known_native(known, failure):
     """A native (runtime-contract) failure is attributed to a known finding only if its input is one of the
     finding's witnesses (same contract + clause, and the input satisfies the finding's witness predicate)."""
@@ -365,7 +382,7 @@ def match_known_native(known, failure):
         if 'case' in nat and not fnmatch.fnmatchcase(failure.get('case', ''), nat['case']):
             continue
         inp = failure.get('input') or {}
-        vals = [v for v in inp.values() if isinstance(v, str)]
+        vals = _flat_strings(inp)
         if 'contains_any' in nat and not any(any(ch in v for ch in nat['contains_any']) for v in vals):
             continue
         if 'first_char_in' in nat and not any(v[:1] and v[0] in nat['first_char_in'] for v in vals):
@@ -376,9 +393,21 @@ def match_known_native(known, failure):
     return None
 
 
+_WITNESS_CACHE = {}
+
+
 def find_witness(pid, ob, r, mine, registry, lemmas, tier, seed):
-    """Search a concrete input on which the *real* function violates the contract that owns the obligation."""
+    """Search a concrete input on which the *real* function violates the contract that owns the obligation.
+    Budgeted (time and candidates) and cached per (contract, model characters)."""
+    key = (ob.meta.get('contract'), ob.meta.get('lemma'), json.dumps(sorted((r.get('model') or {}).items()), default=str))
+    if key not in _WITNESS_CACHE:
+        _WITNESS_CACHE[key] = _find_witness(pid, ob, r, mine, registry, lemmas, tier, seed)
+    return _WITNESS_CACHE[key]
+
+
+def _find_witness(pid, ob, r, mine, registry, lemmas, tier, seed):
     rng = random.Random(seed)
+    deadline = time.time() + (20 if tier == 'quick' else 90)
     model = r.get('model') or {}
     chars = set()
     for v in model.values():
@@ -416,7 +445,7 @@ def find_witness(pid, ob, r, mine, registry, lemmas, tier, seed):
             n = 0
             for raw in itertools.chain(cand, con.native_inputs(case, alpha, 4 if tier == 'quick' else 5, rng, 0)):
                 n += 1
-                if n > 60000:
+                if n > 60000 or time.time() > deadline:
                     break
                 try:
                     res = native_check_one(con, case, raw)
